@@ -16,17 +16,33 @@ pub enum Unit {
     Structure { opts: Opts },
     /// metacharacter strings in one text slot: all concatenations starting with fragment `first`
     Text { slot: usize, first: usize, max_frags: usize },
+    /// a text slot holding a sequence of separately styled fragments: every sequence of styles
+    Styled { slot: usize, max_frags: usize },
+}
+
+const STYLES: [Sty; 5] = [Sty::Text, Sty::Lit, Sty::Em, Sty::Inv, Sty::Nested];
+const STYLED_FRAGS: [&str; 4] = ["one", " <two> ", "three.x", "\n\nfour & five"];
+/// the k-th sequence of n styles, as a styled document
+fn styled_doc(n: usize, mut k: usize) -> DocSpec {
+    let mut v = vec![];
+    for i in 0..n {
+        v.push((STYLES[k % STYLES.len()], STYLED_FRAGS[i % STYLED_FRAGS.len()].to_string()));
+        k /= STYLES.len();
+    }
+    DocSpec(v)
 }
 
 pub const FRAGS: [&str; 22] = ["\n    ", "\n\n```\n", ".x", "'x", "\\fB", "\\", "-", "<zz>", "</dd>", "&", ">", "\n.", "\n'", "\n ", "\n\n", "[x](y)", "`", "*", "_", "#", "é", "word"];
 pub const SLOTS: usize = 8;
 
 pub fn slot_def(slot: usize, text: &str) -> (Opts, String) {
-    let d = DocSpec::plain(text);
+    slot_def_doc(slot, text, DocSpec::plain(text))
+}
+pub fn slot_def_doc(slot: usize, text: &str, d: DocSpec) -> (Opts, String) {
     let plain = P::Switch(Names::both('p', "plain").help("plain help"));
     let mut app = "app".to_string();
     let o = match slot {
-        0 => Opts::new(P::Seq(vec![P::Switch(Names::both('a', "alpha").help(text)), plain])),
+        0 => Opts::new(P::Seq(vec![P::Switch(Names { help: Some(d), ..Names::both('a', "alpha") }), plain])),
         1 => {
             let mut o = Opts::new(P::Seq(vec![plain]));
             o.cfg.descr = Some(d);
@@ -190,7 +206,13 @@ pub fn lex_roff(s: &str) -> Result<String, String> {
 }
 
 fn check_text_case(unit: &Value, slot: usize, text: &str, only_format: Option<&str>, ctx: &mut Ctx) {
-    let (o, app) = slot_def(slot, text);
+    check_doc_case(unit, slot, text, None, only_format, ctx)
+}
+fn check_doc_case(unit: &Value, slot: usize, text: &str, styled: Option<(usize, usize)>, only_format: Option<&str>, ctx: &mut Ctx) {
+    let (o, app) = match styled {
+        Some((n, k)) => slot_def_doc(slot, text, styled_doc(n, k)),
+        None => slot_def(slot, text),
+    };
     let p = match build_checked(&o) {
         Ok(p) => p,
         Err(e) => {
@@ -205,9 +227,9 @@ fn check_text_case(unit: &Value, slot: usize, text: &str, only_format: Option<&s
                 continue;
             }
         }
-        ctx.begin_case(|| json!({"slot": slot, "text": text, "format": format}));
+        let case = json!({"slot": slot, "text": text, "format": format, "styled": styled.map(|(n, k)| vec![n, k])});
+        ctx.begin_case(|| case.clone());
         ctx.s.evaluations += 1;
-        let case = json!({"slot": slot, "text": text, "format": format});
         let out = match render(&p, &app, format) {
             Ok(s) => s,
             Err(e) => {
@@ -241,7 +263,7 @@ fn check_text_case(unit: &Value, slot: usize, text: &str, only_format: Option<&s
                         continue;
                     }
                     // decoding gives the user text back (help-like slots keep their case)
-                    if slot == 0 || slot == 4 {
+                    if (slot == 0 || slot == 4) && styled.is_none() {
                         for l in text.split('\n') {
                             let l = l.trim();
                             if !l.is_empty() && !decoded.contains(l) {
@@ -427,6 +449,9 @@ impl Check for C16 {
             for first in 0..FRAGS.len() {
                 out.push(serde_json::to_value(Unit::Text { slot, first, max_frags: tier.pick(3, 4) }).unwrap());
             }
+            if slot < 6 {
+                out.push(serde_json::to_value(Unit::Styled { slot, max_frags: tier.pick(3, 5) }).unwrap());
+            }
         }
         out
     }
@@ -434,6 +459,13 @@ impl Check for C16 {
         std::env::remove_var("BPAFMC_DOC");
         match serde_json::from_value::<Unit>(unit.clone()).unwrap() {
             Unit::Structure { opts } => check_structure(unit, &opts, None, ctx),
+            Unit::Styled { slot, max_frags } => {
+                for n in 1..=max_frags {
+                    for k in 0..STYLES.len().pow(n as u32) {
+                        check_doc_case(unit, slot, &styled_doc(n, k).flat(), Some((n, k)), None, ctx);
+                    }
+                }
+            }
             Unit::Text { slot, first, max_frags } => {
                 for s in strings(first, max_frags) {
                     check_text_case(unit, slot, &s, None, ctx);
@@ -457,6 +489,12 @@ impl Check for C16 {
         ctx.s.evaluations += 1;
         let format = case["format"].as_str().map(String::from);
         match serde_json::from_value::<Unit>(unit.clone()).unwrap() {
+            Unit::Styled { slot, .. } => {
+                let nk: Vec<usize> = serde_json::from_value(case["styled"].clone()).unwrap_or_default();
+                if nk.len() == 2 {
+                    check_doc_case(unit, slot, &styled_doc(nk[0], nk[1]).flat(), Some((nk[0], nk[1])), format.as_deref().filter(|f| *f != "build"), ctx);
+                }
+            }
             Unit::Structure { opts } => check_structure(unit, &opts, format.as_deref(), ctx),
             Unit::Text { .. } => {
                 let slot = case["slot"].as_u64().unwrap_or(0) as usize;
